@@ -79,11 +79,13 @@ fn plans(prop: &str, tier: &str) -> Vec<Plan> {
     let safe_only = matches!(prop, "C01" | "C02" | "C03" | "C05" | "C17");
     let xcap = if quick { 30_000 } else { 300_000 };
     let mk = |label: &str, cfg: &Cfg, d: usize, m: usize, b: usize| -> Plan {
-        let o = Opts { max_depth: d, max_memo: m, dev_budget: b, ref_in_key: safe_only, xval_cap: xcap, ..Opts::default() };
+        // the largest default-answer box of a configuration also runs the operand-consuming opcodes one slot deeper
+        let o = Opts { max_depth: d, max_memo: m, dev_budget: b, ref_in_key: safe_only, xval_cap: xcap, fringe_consumers: b == 0 && m == 1, ..Opts::default() };
         Plan { label: format!("{label}/D{d}M{m}b{b}"), cfg: cfg.clone(), opts: o, scenario: vec![] }
     };
     if prop != "C10" {
-        for p in 0..=5u8 {
+        // descending: a process-wide cache filled by a richer protocol must not leak into a poorer one
+        for p in (0..=5u8).rev() {
             let cfgs = if safe_only { safe_configs(p) } else { all_configs(p) };
             for (label, cfg) in cfgs {
                 let has_m = !cfg.mutators.is_empty();
@@ -229,7 +231,7 @@ pub fn check(prop: &str, tier: &str) -> i32 {
     let mut sweep_runs = 0u64;
     {
         use rayon::prelude::*;
-        let jobs: Vec<(u8, u64, usize)> = (0..=5u8).flat_map(|p| (0..sweep_n).flat_map(move |s| (0..3usize).map(move |c| (p, s, c)))).collect();
+        let jobs: Vec<(u8, u64, usize)> = (0..=5u8).rev().flat_map(|p| (0..sweep_n).flat_map(move |s| (0..3usize).map(move |c| (p, s, c)))).collect();
         let res: Vec<(Cfg, u64, Vec<Finding>, Option<Vec<u8>>)> = jobs
             .par_iter()
             .filter_map(|(p, s, c)| {
